@@ -289,9 +289,16 @@ class Denote:
         term has no prefix operator.
     """
 
-    def __init__(self, text: str, builtins: set[str]):
+    def __init__(self, text: str, builtins: set[str], keep_blank: bool = False):
         self.t = text
         self.builtins = builtins
+        # keep_blank: python-pest's convention for doc lines (the optional blank after the marker is part of
+        # the line) instead of pest's (the line is inner_doc)
+        self.keep_blank = keep_blank
+
+    def doc(self, p) -> str:
+        inner = p[3][0]
+        return self.t[p[1] + 3 : inner[2]] if self.keep_blank else self.txt(inner)
 
     def txt(self, p) -> str:
         return self.t[p[1] : p[2]]
@@ -300,11 +307,11 @@ class Denote:
         gdocs, rules, pending = [], {}, []
         for p in pairs:
             if p[0] == "grammar_doc":
-                gdocs.append(self.txt(p[3][0]))
+                gdocs.append(self.doc(p))
             elif p[0] == "grammar_rule":
                 ch = p[3]
                 if ch[0][0] == "line_doc":
-                    pending.append(self.txt(ch[0][3][0]))
+                    pending.append(self.doc(ch[0]))
                     continue
                 name = self.txt(ch[0])
                 mod = 0
@@ -407,9 +414,9 @@ class Denote:
         raise AssertionError(k)
 
 
-def denote(text: str, pairs_str: str, builtins: set[str]):
+def denote(text: str, pairs_str: str, builtins: set[str], keep_blank: bool = False):
     """(grammar docs, {name: (modifier bits, doc lines, serialised expression)})"""
-    return Denote(text, builtins).grammar(parse_pairs(pairs_str))
+    return Denote(text, builtins, keep_blank).grammar(parse_pairs(pairs_str))
 
 
 # ---------------------------------------------------------------- sentences of the meta-grammar
